@@ -22,6 +22,8 @@ import YtkProps.C20
 /-- Coherence of the whole framework: this file imports all 20 property modules `YtkProps.C01` …
     `YtkProps.C20`, so ONE environment holds every property theorem together with everything the
     proofs depend on. That it builds shows that no two declarations of the model or of the proof
-    files clash (same name, different body), and `lake env leanchecker YtkProps.All` re-checks
-    every declaration of the framework with the kernel in one go. -/
+    files clash (same name, different body). `lake env leanchecker --fresh YtkProps.All` replays
+    every declaration of that environment (core included) through the kernel in one go, about 4
+    minutes; without `--fresh`, `leanchecker YtkProps.All` only loads the imports and replays this
+    one theorem — use `lake env leanchecker YtkModel YtkProofs YtkProps` for a per-module replay. -/
 theorem Ytk.all_properties_cohere : True := trivial
